@@ -47,21 +47,23 @@ def replay(prog) -> dict:
     return dict(events=run_program(prog))
 
 
-def _descr(ev, bad):
+def _descr(ev, bad, prog=None):
     op = ev["op"]
     sub = op.get("via") or (op.get("how") or {}).get("name") or (op.get("gop") or {}).get("name") or ""
     return dict(clause=bad["why"], op=op["name"], sub=sub, ctx=bad.get("ctx", ""), kind=ev["L"]["kind"],
-                error=ev["out"]["err"][:80], event=ev)
+                error=ev["out"]["err"][:80], event=ev, program=prog)
 
 
 def _judge(rep: engine.Report, programs, tag):
     results = engine.parallel_replay("harness.props.c03", "replay", programs)
     events = []
+    owner = []
     for p, r in zip(programs, results):
         if "machinery_error" in r:
             rep.machinery_error(r["machinery_error"])
             continue
         events.extend(r["events"])
+        owner.extend([p] * len(r["events"]))
     CH = 3000
     for lo in range(0, len(events), CH):
         chunk = events[lo : lo + CH]
@@ -69,7 +71,7 @@ def _judge(rep: engine.Report, programs, tag):
         rep.add_tlc(res)
         badmap = {b["i"]: b for b in verdict["bad"]}
         for i, e in enumerate(chunk, start=1):
-            fails = [_descr(e, badmap[i])] if i in badmap else []
+            fails = [_descr(e, badmap[i], owner[lo + i - 1])] if i in badmap else []
             rep.record({"op": e["op"], "L": e["L"]}, fails, nontrivial_key=(e["op"], e["L"]))
             rep.count(e["op"]["name"])
     rep.traces_validated += len(programs)
@@ -78,6 +80,10 @@ def _judge(rep: engine.Report, programs, tag):
 def _interleaved(L) -> bool:
     ims = [r["f"].get("img", 0) for r in L["tab"]["rows"]]
     return any(ims[i] == ims[k] != ims[j] for i in range(len(ims)) for j in range(i + 1, len(ims)) for k in range(j + 1, len(ims)))
+
+
+def _gap(L) -> bool:
+    return list(L["imgs"]) != list(range(len(L["imgs"])))
 
 
 def run(rep: engine.Report, tier: str, seed: int):
@@ -91,7 +97,7 @@ def run(rep: engine.Report, tier: str, seed: int):
         raise engine.MachineryError("EMIT_C03 emitted nothing")
     budget = 2500 if quick else len(one)
     one = engine.stratified_sample(
-        one, lambda p: (p["prog"][0]["name"], json.dumps(p["prog"][0].get("how") or p["prog"][0].get("via") or p["prog"][0].get("gop"), sort_keys=True), p["init"]["L"]["kind"], _interleaved(p["init"]["L"])), budget, seed)
+        one, lambda p: (p["prog"][0]["name"], json.dumps(p["prog"][0].get("how") or p["prog"][0].get("via") or p["prog"][0].get("gop"), sort_keys=True), p["init"]["L"]["kind"], _interleaved(p["init"]["L"]), _gap(p["init"]["L"])), budget, seed)
     _judge(rep, one, "steps")
     num = 300 if quick else 3000
     sim = rep.add_tlc(engine.tlc("LdrMachine", "SIM_C03", workers=1,
@@ -123,9 +129,11 @@ def replay_file(path: str) -> int:
     v = json.loads(open(path).read())
     ev = v["event"]
     prog = dict(pid="r", init=dict(L=ev["L"], T=ev["T"]), prog=[ev["op"]])
+    if v.get("program") and len(v["program"]["prog"]) > 1:
+        prog = v["program"]   # multi-step programme: re-run all of it
     evs = run_program(prog)
     _, verdict = engine.validate_trace("Trace_Ldr", evs, tag="replay")
-    print(json.dumps(dict(event=evs[0], verdict=verdict), indent=1))
+    print(json.dumps(dict(events=evs, verdict=verdict), indent=1))
     return 1 if verdict["bad"] else 0
 
 
